@@ -8,6 +8,13 @@ class WritePotentialException(Exception):
   pass
 
 
+def _inFieldRange(value):
+  """A number smaller in magnitude than 1e-99 needs a three digit exponent, which would push a
+  record beyond its four fields of 15 characters: such values are written as zero."""
+  if len(u" % 14.7e" % value) > 15 and abs(value) < 1.0:
+    return 0.0
+  return value
+
 def _writePotential(potential, cutoff, gridPoints, meshResolution, out ):
   """Given a writeTABLE.Potential object, will write it to the given stream (out)
   in the correct DL_POLY TABLE file format.
@@ -38,7 +45,7 @@ def _writePotential(potential, cutoff, gridPoints, meshResolution, out ):
   r=0.0
   for i in range(gridPoints):
     r += meshResolution
-    l.append(potential.energy(r))
+    l.append(_inFieldRange(potential.energy(r)))
 
     if len(l) == 4:
       #List has 4 elements, dump a row
@@ -51,7 +58,7 @@ def _writePotential(potential, cutoff, gridPoints, meshResolution, out ):
   r = 0.0
   for i in range(gridPoints):
     r += meshResolution
-    l.append(_calculateForce(potential, r))
+    l.append(_inFieldRange(_calculateForce(potential, r)))
 
     if len(l) == 4:
       #List has 4 elements, dump a row
